@@ -836,3 +836,100 @@ def run_case(rng, big=False, spec=None):
     stats["at_limit"] = len(seen_n)
     return expr, dict(kind="runs", spec=spec, lims=obs["lims"], trace=trace, final=fin,
                       results=obs["results"]), key, stats, mon, obs
+
+
+# ---- part C: an instance allocated at the address of a dropped one -------------------------------
+
+def replacement_case(rng):
+    """Instances with limit L_old run to completion on one runtime and are dropped (garbage collected); a NEW instance
+    with another limit L_new is then allocated until CPython hands it the address - hence the id() the runtime keys its
+    semaphores by - of a dropped one, and gets more than L_new overlapping runs.  The statement is evaluated on the step
+    entry/exit of the new instance alone: never more than L_new of its runs execute, none waits while fewer execute,
+    every run finishes.  Returns (failures [(key, message, detail)], facts)."""
+    from workflows import Workflow, step
+    from workflows.events import StartEvent, StopEvent
+    from workflows.plugins.basic import BasicRuntime
+    old_limit = rng.choice([1, 2, 3, 4])
+    new_limit = rng.choice([x for x in (1, 2, 3, 4) if x != old_limit])
+    nold = rng.randint(8, 16)
+    nruns = max(old_limit, new_limit) + rng.randint(1, 2)
+    spec = dict(old_limit=old_limit, new_limit=new_limit, old_instances=nold, runs=nruns)
+    gates = []
+
+    class Repl(Workflow):
+        @step
+        async def only(self, ev: StartEvent) -> StopEvent:
+            st = self._st
+            st["active"] += 1
+            st["peak"] = max(st["peak"], st["active"])
+            g = asyncio.Event()
+            gates.append(g)
+            try:
+                await g.wait()
+            finally:
+                st["active"] -= 1
+                st["finished"] += 1
+            return StopEvent(result="x")
+
+    box = {}
+
+    async def drain(st, n):
+        for _ in range(4 * n + 8):
+            await vloop.settle()
+            if st["finished"] >= n and not gates:
+                break
+            while gates:
+                gates.pop(0).set()
+        await vloop.settle()
+
+    async def main():
+        rt = BasicRuntime()
+        ids = set()
+        for _ in range(nold):
+            wf = Repl(num_concurrent_runs=old_limit, runtime=rt)
+            wf._st = dict(active=0, peak=0, finished=0)
+            hs = [wf.run() for _ in range(old_limit + 1)]
+            await drain(wf._st, old_limit + 1)
+            box.setdefault("old_peak", []).append(wf._st["peak"])
+            ids.add(id(wf))
+            del wf, hs
+        for _ in range(3):
+            gc.collect()
+            await vloop.settle()
+        keep, new = [], None
+        for _ in range(3000):
+            c = Repl(num_concurrent_runs=new_limit, runtime=rt)
+            if id(c) in ids:
+                new = c
+                break
+            keep.append(c)
+        box["reused"] = new is not None
+        if new is None:
+            new = keep[0]
+        del keep
+        st = new._st = dict(active=0, peak=0, finished=0)
+        hs = [new.run() for _ in range(nruns)]
+        await vloop.settle()
+        box["at_quiescence"] = st["active"]
+        await drain(st, nruns)
+        box["st"] = dict(st)
+        box["pending"] = sum(1 for h in hs if not h.done())
+
+    with warnings.catch_warnings():
+        warnings.simplefilter("ignore")
+        vloop.run(main(), auto=False)
+    st, out = box["st"], []
+    if st["peak"] > new_limit:
+        out.append(("C30/limit-exceeded",
+                    "a new instance with num_concurrent_runs=%d allocated at the address of a dropped instance "
+                    "(num_concurrent_runs=%d) had %d runs executing steps at once" % (new_limit, old_limit, st["peak"]),
+                    dict(spec)))
+    if box["at_quiescence"] < min(nruns, new_limit):
+        out.append(("C30/run-waits-below-limit",
+                    "a new instance with num_concurrent_runs=%d allocated at the address of a dropped instance "
+                    "(num_concurrent_runs=%d): %d runs started, only %d execute"
+                    % (new_limit, old_limit, nruns, box["at_quiescence"]), dict(spec)))
+    if box["pending"] or st["finished"] != nruns:
+        out.append(("C30/run-never-finishes", "%d of %d runs of the new instance never finished" % (box["pending"], nruns),
+                    dict(spec)))
+    return out, dict(reused=box["reused"], spec=spec, peak=st["peak"], old_peak=box.get("old_peak"))
